@@ -820,7 +820,8 @@ def other_items():
     # custom items: with frames (a box around a parked generator's frame, and around the generator) and without
     pg = _parked()
     next(pg)
-    for label, item in (("custom item holding a frame", FrameBox(pg.gi_frame)), ("custom item without frames", object())):
+    for label, item in (("custom item holding a frame", FrameBox(pg.gi_frame)), ("custom item without frames", object()),
+                        ("None as the item", None)):
         n += 1
         st = stackscope.extract(item)
         origin_contract(st, label, bad)
